@@ -8,9 +8,10 @@ CONSTANTS
   ItemTypes <- EntOnly
   MaxOrphans = 0
   Kinds <- KindsTimed
-  Tmo = {0, 2}
+  Tmo <- TmoHuge
   Horizon = 3
   AllowFaults = FALSE
+  OpenGarbage = FALSE
   AdapterErrors = FALSE
   AllowCancel = FALSE
   AllowStall = FALSE
